@@ -4,7 +4,7 @@ from harness import tcpgen as G, wire as W
 RULE = ("signatures are generated FROM WITNESSES: a random real SYN/SYN+ACK is built, the verified model extracts its signature and "
         "confirms that the derived signature text (fields generalised at random: mss/scale/payload/version -> '*', window -> "
         "%N / mss*N / mtu*N / '*', ttl -> ttl+d / ttl-) matches it exactly, so every signature is satisfiable by construction, incl. "
-        "eol+n, ?n kinds, olen>0, opt+, bad; bases: same type and IP version, bare or under Ether, hints for MSS/WScale/timestamps, "
+        "eol+n, ?n kinds, olen>0, opt+, bad; bases: same type and IP version, bare, under Ether (also as a padded short frame) or IPv6 with extension headers before TCP, hints for MSS/WScale/timestamps, "
         "ECE/CWR/PSH/NS bits, payload, tos/id/DF; tape policies min / max / uniform / adversarial; oracle = verified extractor + "
         "matcher on the implementation's output bytes (must be EXACT at distance extra_hops); tie = model bytes vs bytes(out) under "
         "the same random tape; non-trivial = oracle confirms an exact match")
@@ -85,7 +85,7 @@ def generate(R, tier):
         if edge and s["wtype"] == 3:
             h = R.choice([1, 50, 99, 100, 101, 65535 // s["wsize"], 65535 // s["wsize"] + 1, 65535])
             base["opts"] = W.pad4(W.o_mss(max(0, min(65535, h))) + R.choice(["", "01" + W.o_ws(7)]), "01")
-        yield {"stream": "witness", "witness": wspec, "sig": G.sig_text(s), "base": base, "ether": R.choice([False] * 16 + [True, True, "padded", "padded"]), "hops": hops, "md": md,
+        yield {"stream": "witness", "witness": wspec, "sig": G.sig_text(s), "base": base, "ether": R.choice([False] * 16 + [True, True, "padded", "padded", "exthdr", "exthdr"]), "hops": hops, "md": md,
                "mtu": R.choice([1500, 1500, 1500, 1400, 9000]) if s["wtype"] == 4 else 1500,
                "uptime": R.choice([None, None, None, 123456]), "policy": R.choice(POLICIES)}
 
@@ -183,6 +183,16 @@ def impl_init():
             pad = (b"\x00" * max(2, 60 - len(frame))) if len(c["sig"]) % 2 else b"\xaa\xbb\x00\x00\x00\x00"
             given = Ether(frame + pad)
             base = given.getlayer("IP") or given.getlayer("IPv6")
+        elif c["ether"] == "exthdr":
+            # an IPv6 base that carries extension headers between the IPv6 header and TCP (an IPv4 base: as it is)
+            if base.version == 6:
+                from scapy.layers.inet6 import IPv6, IPv6ExtHdrDestOpt, IPv6ExtHdrHopByHop
+                t0 = base.getlayer("TCP")
+                t0.underlayer.remove_payload()
+                hdr = base
+                del hdr.nh, hdr.plen          # recomputed for the new header chain
+                ext = IPv6ExtHdrHopByHop() / IPv6ExtHdrDestOpt() if len(c["sig"]) % 2 else IPv6ExtHdrDestOpt()
+                given = base = IPv6(bytes(hdr / ext / t0))
         elif c["ether"]:
             given = Ether(src="02:00:00:00:00:01", dst="02:00:00:00:00:02") / base
         tcp = base.getlayer("TCP")
